@@ -17,7 +17,7 @@ echo "repo_head=$(git -C /repo log --format=%h -1)" >> $R
 DEMO_CMD=$(python3 -c "import json;print(json.load(open('$DST/meta.json')).get('demo_cmd',''))")
 DEMO_CMD=$(python3 -c "
 import re,sys
-print(re.sub(r'/tmp/seed2?-$P(?!-out)', '$WT', sys.argv[1]))" "$DEMO_CMD")
+print(re.sub(r'/tmp/seed[0-9]?-$P(?!-out)', '$WT', sys.argv[1]))" "$DEMO_CMD")
 # placeholders such as <worktree>, <gleece>, <tree>, <repo> stand for the scratch worktree
 DEMO_CMD=$(echo "$DEMO_CMD" | sed -E "s#<(worktree|gleece|tree|repo|checkout|src)>#$WT#g")
 echo "demo_cmd=$DEMO_CMD" >> $R
@@ -39,7 +39,9 @@ if ! (cd $WT && git apply $DST/patch.diff); then echo "patch_applies=no" >> $R; 
 (cd $WT && go build ./... >$DST/build.log 2>&1); echo "build_exit=$?" >> $R
 echo "demo_patched_exit=$(run_demo patched)" >> $R
 (cd $WT && git clean -fdq)
+if [ -n "${SKIP_SUITE:-}" ] && [ -s $DST/suite.log ]; then echo "suite: kept from the previous confirmation run of the same patch" >> $R; else
 (cd $WT && go test -vet=off -count=1 -timeout 25m ./... > $DST/suite.log 2>&1)
+fi
 echo "suite_ok_pkgs=$(grep -c '^ok' $DST/suite.log) suite_fail_pkgs=$(grep '^FAIL' $DST/suite.log | grep -v '^FAIL$' | awk '{print $2}' | sed 's|.*/test/||' | tr '\n' ' ')" >> $R
 git -C /repo worktree remove --force $WT
 cat $R
